@@ -481,7 +481,11 @@ impl Rasn {
                 assignment!(self, &ty.as_str(), self.value_to_tokens(&tld.value, None)?),
                 self.config.no_std_compliant_bindings
             ),
-            _ => Ok(TokenStream::new()),
+            _ => Err(GeneratorError::new(
+                Some(ToplevelDefinition::Value(tld)),
+                "This kind of value assignment is currently unsupported!",
+                GeneratorErrorType::NotYetInplemented,
+            )),
         }
     }
 
